@@ -45,7 +45,7 @@ def _sg(group):
     return {'group': group, 'exclude_units': SHARD_VALUE_UNITS}
 
 GLOB_KANI = [
-    _kx('glob_matches_reference_bounded', 'glob', bounded='pattern <= 3 bytes, channel <= 4 bytes over the alphabet {a, b, *, ?, \\}; unwind 26', timeout=900),
+    _kx('glob_matches_reference_bounded', 'glob', bounded='pattern <= 3 bytes, channel <= 3 bytes over the alphabet {a, b, *, ?, \\}; unwind 18', timeout=600),
 ]
 SETRANGE_KANI = [
     _kx('setrange_new_bounded', 'setrange', bounded='offset <= 6, value <= 3 symbolic bytes'),
